@@ -453,3 +453,61 @@ pub fn labels(c: &Case, r: &RunOut) -> Vec<&'static str> {
     }
     l
 }
+
+// ---------------------------------------------------------------- C11, C12
+#[cfg(feature = "has-alloc")]
+pub struct GroupProp {
+    pub id: &'static str,
+    pub rule: &'static str,
+    pub profile: fn(Tier) -> crate::groups::GroupProfile,
+    pub cases: fn(Tier) -> u64,
+    pub max_len: fn(Tier) -> usize,
+}
+
+#[cfg(feature = "has-alloc")]
+fn gp(fam: Family, t: Tier) -> crate::groups::GroupProfile {
+    let mut base = Profile::base();
+    base.p_never = 8;
+    base.p_nodrain = 10;
+    base.max_script = 6;
+    crate::groups::GroupProfile {
+        fam,
+        base,
+        max_ops: if t == Tier::Quick { 40 } else { 120 },
+        p_drop: 1,
+        p_nest: 14,
+    }
+}
+#[cfg(feature = "has-alloc")]
+fn gp11(t: Tier) -> crate::groups::GroupProfile {
+    gp(Family::FutGroup, t)
+}
+#[cfg(feature = "has-alloc")]
+fn gp12(t: Tier) -> crate::groups::GroupProfile {
+    gp(Family::StrGroup, t)
+}
+#[cfg(feature = "has-alloc")]
+fn group_cases(t: Tier) -> u64 {
+    match t {
+        Tier::Quick => 160_000,
+        Tier::Thorough => 3_000_000,
+    }
+}
+#[cfg(feature = "has-alloc")]
+fn group_len(t: Tier) -> usize {
+    match t {
+        Tier::Quick => 700,
+        Tier::Thorough => 2400,
+    }
+}
+
+#[cfg(feature = "has-alloc")]
+pub const GROUP_PROPS: &[GroupProp] = &[
+    GroupProp { id: "C11", rule: "operation history on a FutureGroup (plain or keyed) that contains an insert re-using the key of a removed/finished member, or growth of the group (insert/reserve/extend raising capacity) while a member is pending, or a refill after the group returned None; distinct = distinct decoded history", profile: gp11, cases: group_cases, max_len: group_len },
+    GroupProp { id: "C12", rule: "operation history on a StreamGroup (plain or keyed) that contains an insert re-using the key of a removed/ended member, or growth while a member is pending, or a refill after None, or two or more members ending in the same poll; distinct = distinct decoded history", profile: gp12, cases: group_cases, max_len: group_len },
+];
+
+#[cfg(feature = "has-alloc")]
+pub fn group_prop(id: &str) -> Option<&'static GroupProp> {
+    GROUP_PROPS.iter().find(|p| p.id == id)
+}
